@@ -288,6 +288,25 @@ def run_vcf(spec, rec, dadi):
             # bootstraps are sums of chunk spectra (non-negative integer multiplicities summing to the number of chunks)
             random.seed(int(rng.integers(2 ** 31)))
             ok, boots = rec.noraise("bootstraps-returns", lambda: Misc.bootstraps_from_dd_chunks(frags, 4, pops, proj, mask_corners=False), site="Misc.bootstraps_from_dd_chunks", tags=tags)
+            # the same unpolarised: chunk spectra are folded spectra of *all* usable SNPs (also those without a usable ancestral
+            # allele), and a bootstrap is a sum of those
+            parts_f = []
+            for f in frags:
+                pf = Spectrum.from_data_dict(f, pops, proj, mask_corners=False, polarized=False)
+                parts_f.append(np.where(np.asarray(np.ma.getmaskarray(pf)), 0.0, np.asarray(pf.data)))
+            random.seed(int(rng.integers(2 ** 31)))
+            okf, boots_f = rec.noraise("bootstraps-returns", lambda: Misc.bootstraps_from_dd_chunks(frags, 3, pops, proj, mask_corners=False, polarized=False),
+                                       site="Misc.bootstraps_from_dd_chunks", tags=dict(tags, polarized=False))
+            if okf:
+                Af = np.stack([p_.ravel() for p_ in parts_f], axis=1)
+                nzf = [j for j in range(Af.shape[1]) if np.any(Af[:, j] != 0)]
+                if nzf and np.linalg.matrix_rank(Af[:, nzf]) == len(nzf):
+                    for bs in boots_f:
+                        y = np.where(np.asarray(np.ma.getmaskarray(bs)), 0.0, np.asarray(bs.data)).ravel()
+                        kk = np.linalg.lstsq(Af[:, nzf], y, rcond=None)[0]
+                        fit = np.max(np.abs(Af[:, nzf] @ np.round(kk) - y)) / max(1.0, np.max(np.abs(y)))
+                        okb = bool(np.all(np.abs(kk - np.round(kk)) < 1e-6) and np.all(np.round(kk) >= 0) and np.sum(np.round(kk)) <= len(frags) and fit < 1e-9)
+                        rec.check("bootstrap-is-sum-of-chunks", okb and bool(bs.folded), site="Misc.bootstraps_from_dd_chunks", tags=dict(tags, polarized=False), observed=kk)
             if ok:
                 Amat = np.stack([p.ravel() for p in parts], axis=1)
                 nz = [j for j in range(Amat.shape[1]) if np.any(Amat[:, j] != 0)]
@@ -357,13 +376,16 @@ def run_stats(spec, rec, dadi):
         der, tot = np.array(der, float), np.array(tot, float)
         for pi_, p in enumerate(syn.pops):
             n = 2 * syn.nind[pi_]
-            fs = Spectrum.from_data_dict(dd, [p], [n])
+            # alternately with the default corner masking and with the corners kept (sites monomorphic in this population land there):
+            # the statistics count segregating sites either way
+            keep_corners = (ci + pi_) % 2 == 1
+            fs = Spectrum.from_data_dict(dd, [p], [n], mask_corners=not keep_corners)
             k = der[:, pi_]
             seg = (k > 0) & (k < n)
             S = float(seg.sum())
             a1 = np.sum(1.0 / np.arange(1, n))
             pi_ref = float(np.sum(2 * k * (n - k) / (n * (n - 1.0))))
-            t = dict(tags, n=n)
+            t = dict(tags, n=n, corners_kept=keep_corners)
             rec.close("stat-S", abs(float(fs.S()) - S) / max(S, 1), TOL, site="Spectrum.S", tags=t)
             rec.close("stat-pi", abs(float(fs.pi()) - pi_ref) / max(pi_ref, 1e-300), TOL, site="Spectrum.pi", tags=t)
             rec.close("stat-Watterson", abs(float(fs.Watterson_theta()) - S / a1) / max(S / a1, 1e-300), TOL, site="Spectrum.Watterson_theta", tags=t)
